@@ -217,3 +217,36 @@ void h_InlinedMemcmpEq_exact(void) {
   VASSERT(r == want, "C14.memcmpeq.exact: true exactly when every one of the s bytes agrees");
   CANARY();
 }
+
+#ifdef UNIT_Less
+/* ---- DNode::Less (the optional lookup map's comparator) against InlinedMemcmp's contract ---- */
+typedef struct { const char *data_; size_t size_; } StringView;
+typedef StringView MSType;
+#define SPEC_MIN(a, b) ((a) < (b) ? (a) : (b))
+/* InlinedMemcmp by contract (proved in the jobs above: its sign is the sign of memcmp over exactly s bytes): modelled as two
+ * nondeterministic results for the two argument orders, tied together by what "sign of memcmp" implies */
+int less_c12, less_c21; const void *less_a; size_t less_len;
+int nondet_int(void);
+static inline int less_memcmp(const void *l, const void *r, size_t s) {
+  __CPROVER_assert(__CPROVER_r_ok(l, s) && __CPROVER_r_ok(r, s), "C14.less.extent: the comparator compares exactly min(n1, n2) bytes of both keys");
+  less_len = s;
+  return l == less_a ? less_c12 : less_c21;
+}
+#define InlinedMemcmp less_memcmp
+#include "gen/DNode.Less.inc"
+#undef InlinedMemcmp
+size_t in_n1, in_n2;
+void h_Less(void) {
+  size_t n1, n2; __CPROVER_assume(n1 <= 64 && n2 <= 64); in_n1 = n1; in_n2 = n2;
+  char *a = malloc(n1), *b = malloc(n2); __CPROVER_assume(a != NULL && b != NULL && a != b);     /* exact-size keys */
+  StringView s1, s2; s1.data_ = a; s1.size_ = n1; s2.data_ = b; s2.size_ = n2;
+  less_a = a; less_c12 = nondet_int(); less_c21 = nondet_int();
+  __CPROVER_assume((less_c12 == 0) == (less_c21 == 0) && (less_c12 < 0) == (less_c21 > 0));      /* memcmp(a,b,n) and memcmp(b,a,n) have opposite signs */
+  bool ab = DNode_Less(s1, s2), ba = DNode_Less(s2, s1);
+  bool prefix_equal = less_c12 == 0;
+  VASSERT(!(ab && ba), "C14.less.asym: the comparator is asymmetric");
+  VASSERT((!ab && !ba) == (prefix_equal && n1 == n2), "C14.less.equiv: two keys are equivalent in the lookup map exactly when they have the same length and the same bytes, so map-based and linear lookup agree");
+  VASSERT(!(prefix_equal && n1 < n2) || ab, "C14.less.prefix: a proper prefix orders before its extension");
+  CANARY();
+}
+#endif
